@@ -342,6 +342,9 @@ func (fn *Func) callExpr(q string) string {
 const helpersSrc = `// T is a receiver type for generated methods.
 type T struct{ V int }
 
+// With applies f to the receiver's value (used to hide a literal in a method chain).
+func (t T) With(f func(int) int) T { return T{V: f(t.V)} }
+
 var (
 	noteMu  sync.Mutex
 	noteSum int
@@ -411,6 +414,21 @@ func (w *writer) global(n *Node) {
 		w.line(0, "}")
 	case "globalSingle":
 		w.line(0, "var gs%d = func(x int) int { return x * %d }", n.ID, k)
+	case "globalParen": // an immediately called, parenthesised literal
+		w.line(0, "var gp%d = (func() int {", n.ID)
+		w.line(1, "x := %d", k)
+		w.line(1, "return x * 2")
+		w.line(0, "})()")
+	case "globalChain": // a literal passed along a method chain on a call result
+		w.line(0, "var gc%d = Ident(T{V: 1}).With(func(x int) int {", n.ID)
+		w.line(1, "x -= %d", k)
+		w.line(1, "return x")
+		w.line(0, "}).V")
+	case "globalBinary": // a literal call as operand of a binary expression
+		w.line(0, "var gb%d = 1 + func() int {", n.ID)
+		w.line(1, "y := %d", k)
+		w.line(1, "return y")
+		w.line(0, "}()")
 	case "globalTable":
 		w.line(0, "var gt%d = map[string]func(int) int{", n.ID)
 		w.line(1, `"a": func(x int) int { return x + %d },`, k)
@@ -784,8 +802,12 @@ func (w *writer) stmt(ind int, n *Node) {
 // GenGlobals generates global closure declarations.
 func (g *Gen) GenGlobals() []*Node {
 	var out []*Node
-	for _, kind := range []string{"globalMulti", "globalSingle", "globalTable"} {
-		if g.R.Intn(100) < 50 {
+	for _, kind := range []string{"globalMulti", "globalSingle", "globalTable", "globalParen", "globalChain", "globalBinary"} {
+		p := 50
+		if strings.HasPrefix(kind, "global") && (kind == "globalParen" || kind == "globalChain" || kind == "globalBinary") {
+			p = 20
+		}
+		if g.R.Intn(100) < p {
 			n := &Node{Kind: kind, ID: g.next(), K: 2 + g.R.Intn(97), Status: g.status()}
 			if kind == "globalMulti" {
 				n.Children = [][]*Node{{{Kind: "x", ID: g.next(), K: 3, Status: g.status()}, {Kind: "x", ID: g.next(), K: 4, Status: g.status()}}}
